@@ -379,6 +379,8 @@ func run(r *mon.Run) {
 		chunk := mon.Pick(g, []int{0, 1, 3})
 		cr := &countingReader{b: stream, chunk: chunk}
 		bad := ""
+		type keptStr struct{ got, snap []byte }
+		var keptStrs []keptStr
 		p, pv := r.Call(fmt.Sprintf("stream/%d", i), stream, func() {
 			d := cbor.NewDecoder(cr)
 			for j, e := range exps {
@@ -395,6 +397,7 @@ func run(r *mon.Run) {
 				case "DecodeByteString":
 					s, err = d.DecodeByteString()
 					u = e.u
+					keptStrs = append(keptStrs, keptStr{s, append([]byte{}, s...)})
 				case "DecodeTextString":
 					var t string
 					t, err = d.DecodeTextString()
@@ -416,6 +419,11 @@ func run(r *mon.Run) {
 		})
 		if p {
 			bad = fmt.Sprintf("panic: %v", pv)
+		}
+		for _, ks := range keptStrs {
+			if bad == "" && !bytes.Equal(ks.got, ks.snap) {
+				bad = "a byte string returned earlier changed while later items were decoded (it aliases a reused buffer)"
+			}
 		}
 		if bad != "" {
 			r.Eval("STREAM-MISMATCH")
